@@ -726,6 +726,13 @@ func (chain *Chain) cosiHandleChallenge(m *CosiAction) error {
 			m, sig, challenge)
 		return nil
 	}
+	if !slices.Contains(m.Signature.Keys(), cd.CN.ConsensusIndex) {
+		// The work aggregation credits the proposer of every finalized snapshot
+		// and requires it among the signers, never sign for a mask without it.
+		logger.Printf("SECURITY cosiHandleChallenge rejected signer mask without the proposer %s for snapshot %s\n",
+			m.PeerId, m.SnapshotHash)
+		return nil
+	}
 	chain.CosiCommunicatedAt[m.PeerId] = clock.Now()
 
 	priv := chain.node.Signer.PrivateSpendKey
